@@ -39,8 +39,13 @@ pub enum Op {
     OtherCell1,
     OtherCell2,
     OtherCell3,
+    /// registers the trusted path by a RELATIVE name, with the trusted directory as current directory
+    AddTrustedRelative,
+    /// the process changes its current directory to the other device's directory, where a (newer)
+    /// file of the same relative name exists
+    ChdirOther,
 }
-pub const OPS_ALL: [Op; 19] = [
+pub const OPS_ALL: [Op; 21] = [
     Op::AddTrusted,
     Op::ObserveTOld,
     Op::ObserveTNew,
@@ -60,6 +65,8 @@ pub const OPS_ALL: [Op; 19] = [
     Op::OtherCell1,
     Op::OtherCell2,
     Op::OtherCell3,
+    Op::AddTrustedRelative,
+    Op::ChdirOther,
 ];
 pub const OPS: [Op; 16] = [
     Op::AddTrusted,
@@ -216,6 +223,19 @@ pub fn child(env: &Env, history: &[Op]) -> Result<(), String> {
                     trusted_devs.push(trusted_dev);
                 }
             }
+            Op::AddTrustedRelative => {
+                std::env::set_current_dir(&env.trusted_dir).map_err(|e| format!("harness: chdir: {}", e))?;
+                registering = Some(env.p_t());
+                nfs_voucher::add_trusted_path(PathBuf::from("trusted_path")).map_err(|e| format!("{}: add_trusted_path(relative name) failed: {}", step, e))?;
+                if !trusted_devs.contains(&trusted_dev) {
+                    trusted_devs.push(trusted_dev);
+                }
+                println!("COV registered-relative");
+            }
+            Op::ChdirOther => {
+                std::env::set_current_dir(&env.other_dir).map_err(|e| format!("harness: chdir: {}", e))?;
+                println!("COV chdir-other");
+            }
             Op::AddTrustedOther => {
                 registering = Some(env.p_u());
                 nfs_voucher::add_trusted_path(env.p_u()).map_err(|e| format!("{}: add_trusted_path failed: {}", step, e))?;
@@ -326,7 +346,7 @@ pub fn child(env: &Env, history: &[Op]) -> Result<(), String> {
             println!("COV base-advanced");
             // it must be the change-time of a file on a trusted device (or of the path being registered)
             let mut candidates: Vec<(PathBuf, Option<u64>)> = Vec::new();
-            for p in [env.t_old(), env.t_new(), env.u_new(), env.p_t(), env.p_u(), env.u_unowned()] {
+            for p in [env.t_old(), env.t_new(), env.u_new(), env.p_t(), env.p_u(), env.u_unowned(), env.other_dir.join("trusted_path")] {
                 let on_trusted = std::fs::metadata(&p).map(|m| trusted_devs.contains(&m.dev())).unwrap_or(false);
                 if on_trusted || registering.as_deref() == Some(p.as_path()) {
                     candidates.push((p.clone(), ctime_ms(&p)));
@@ -364,10 +384,16 @@ pub fn build_env(tag: &str, swap_roles: bool) -> Result<Env, String> {
     let env = Env { trusted_dir, other_dir };
     // Each file is (re)written until its change-time is strictly later, at millisecond resolution,
     // than the previous file's (file systems stamp with a coarse clock that can lag by several ms).
-    let write_after = |path: &Path, content: &[u8], prev: u64| -> Result<u64, String> {
+    // The files' MODIFICATION times are set explicitly and far from their change-times (an hour
+    // and more ahead, or decades back): the module's evidence is the change-time, which only the
+    // kernel sets; a modification time is whatever the last writer said it was.
+    let write_after = |path: &Path, content: &[u8], prev: u64, mtime: std::time::SystemTime| -> Result<u64, String> {
         for _ in 0..400 {
             std::thread::sleep(std::time::Duration::from_millis(5));
             std::fs::write(path, content).map_err(|e| e.to_string())?;
+            let f = std::fs::File::options().write(true).open(path).map_err(|e| e.to_string())?;
+            f.set_times(std::fs::FileTimes::new().set_modified(mtime).set_accessed(mtime)).map_err(|e| e.to_string())?;
+            drop(f);
             let c = ctime_ms(path).ok_or("no ctime")?;
             if c > prev {
                 return Ok(c);
@@ -375,9 +401,13 @@ pub fn build_env(tag: &str, swap_roles: bool) -> Result<Env, String> {
         }
         Err(format!("change-time of {:?} does not advance", path))
     };
-    let c1 = write_after(&env.t_old(), b"old", 0)?;
-    let c2 = write_after(&env.t_new(), b"new", c1 + 2)?;
-    let _c3 = write_after(&env.u_new(), b"untrusted", c2 + 2)?;
+    let now = std::time::SystemTime::now();
+    let hour = std::time::Duration::from_secs(3600);
+    let c1 = write_after(&env.t_old(), b"old", 0, now + 3 * hour)?;
+    let c2 = write_after(&env.t_new(), b"new", c1 + 2, std::time::UNIX_EPOCH + std::time::Duration::from_secs(1_000_000_000))?;
+    let _c3 = write_after(&env.u_new(), b"untrusted", c2 + 2, now + 2 * hour)?;
+    // a file with the trusted path's relative name in the OTHER directory, newest of all
+    let _c4 = write_after(&env.other_dir.join("trusted_path"), b"decoy", _c3 + 2, now + hour)?;
     {
         use std::os::unix::fs::PermissionsExt;
         std::fs::write(env.u_unowned(), b"not ours").map_err(|e| e.to_string())?;
@@ -521,6 +551,11 @@ pub fn run(ctx: &Ctx) -> Report {
     let mut history = vec![Op::AddTrusted];
     rec(ctx, &mut rep, &tag, &mut history, depth, &mut unit, &observing, 1);
     rep.note(format!("C19: after add_trusted_path, all sequences over the {} observing ops {:?} to depth {}", observing.len(), observing, depth));
+    // Non-initial start: the trusted path was registered by a relative name and the process then
+    // changed its current directory to the other device (where the same name designates a newer file).
+    let mut history = vec![Op::AddTrustedRelative, Op::ChdirOther];
+    rec(ctx, &mut rep, &tag, &mut history, depth - 1, &mut unit, &OPS, 2);
+    rep.note(format!("C19: after add_trusted_path(relative name) and a change of current directory to the other device, all sequences over the {} ops to depth {}", OPS.len(), depth - 1));
     // Non-initial start: the thread has read a private cell (sequence number 1) before the module is used at all.
     let mut history = vec![Op::OtherCell1];
     rec(ctx, &mut rep, &tag, &mut history, depth - 1, &mut unit, &OPS, 1);
